@@ -376,6 +376,7 @@ impl<'a> Lexer<'a> {
 
     fn trim_whitespace(&mut self) {
         while self.has_more_chars() && self.source[0].is_whitespace() {
+            #[cfg(feature = "verif")] crate::verif::tick(301);
             self.advance();
         }
     }
@@ -390,6 +391,7 @@ impl<'a> Lexer<'a> {
     fn chop_while<P>(&mut self, mut predicate: P) -> String where P: FnMut(&char) -> bool {
         let mut n = 0;
         while n < self.source.len() && predicate(&self.source[n]) {
+            #[cfg(feature = "verif")] crate::verif::tick(302);
             n += 1;
         }
         self.chop(n)
@@ -504,6 +506,7 @@ impl<'a> Lexer<'a> {
         let mut buffer = String::new();
 
         while self.curr_char().is_ascii_alphabetic() || self.curr_char() == '.' {
+            #[cfg(feature = "verif")] crate::verif::tick(303);
             buffer.push(self.curr_char());
             self.advance();
             self.trim_whitespace();
@@ -646,6 +649,7 @@ impl<'a> Lexer<'a> {
         if CARDINALS_TRIE.contains_prefix(buffer.as_str()) {
             self.advance();
             loop {
+                #[cfg(feature = "verif")] crate::verif::tick(304);
                 let mut tmp = buffer.clone(); 
                 tmp.push(self.cur_as_ipa());
                 if CARDINALS_TRIE.contains_prefix(tmp.as_str()) {
@@ -852,6 +856,7 @@ impl<'a> Lexer<'a> {
     pub(crate) fn get_line(&mut self) -> Result<Vec<Token>, RuleSyntaxError> {
         let mut token_list: Vec<Token> =  Vec::new();
         loop {
+            #[cfg(feature = "verif")] crate::verif::tick(305);
             let next_token = self.get_next_token()?;
             if let TokenKind::Eol = next_token.kind {
                 token_list.push(next_token);
